@@ -107,6 +107,12 @@ pub fn universe() -> Vec<(String, Option<J>)> {
         J::Obj((0..10).map(|i| (if i == 4 { "sku".to_string() } else { format!("m{}", i) }, J::int(i))).collect()),
         J::Obj((0..33).map(|i| (format!("m{}", i), J::float(i as f64))).collect()),
         J::Obj((0..33).map(|i| (format!("m{}", i), J::int(i))).collect()),
+        // objects with more members than a machine word / two words have bits
+        J::Obj((0..65).map(|i| (format!("m{}", i), J::int(i))).collect()),
+        J::Obj((0..129).map(|i| (format!("m{:03}", i), J::int(i))).collect()),
+        J::Obj((0..129).rev().map(|i| (format!("m{:03}", i), J::float(i as f64))).collect()),
+        J::Obj((0..129).map(|i| (format!("m{:03}", i), J::int(if i == 128 { 0 } else { i }))).collect()),
+        J::Obj((0..300).map(|i| (format!("m{:03}", i), J::int(i))).collect()),
         J::Arr((0..70).map(J::int).collect()),
         J::Arr((0..70).map(|i| if i == 69 { J::float(69.0) } else { J::int(i) }).collect()),
         J::Arr((0..70).map(|i| if i == 69 { J::int(68) } else { J::int(i) }).collect()),
